@@ -205,3 +205,66 @@ def path_exists(f, a, b, avoid):
     return False
 
 
+
+
+GROW_METHODS = ("expand", "add_memory", "add_byte", "add_string", "top_expand", "top_add_memory", "top_add_byte", "top_add_string", "tailor")
+START_METHODS = ("begin", "bound", "top_begin", "top_bound")
+
+
+def rule_R14_cxx(ctx, rep, config="cxx-lib"):
+    rep.rule("R14-c++", "the same for the C++ branches of yaep.c, where the containers are objects: a pointer obtained from vlo::begin / bound or os::top_begin / "
+                        "top_bound before a call of a growing method (expand, add_*, tailor) of the same object is not used after that call (every use reachable from "
+                        "the call without re-executing the getter is reported)")
+    p = ctx.prog(config)
+    m = p.m
+    nsites = nptr = 0
+
+    def meth(i):
+        g = m.functions.get(i.callee or "")
+        sn = (g.d.get("srcname") if g is not None else None)
+        if sn and ("3vlo" in (i.callee or "") or "2os" in (i.callee or "")):
+            return sn
+        return None
+    for f in m.defined():
+        if not f.module or not f.module.startswith("yaep."):
+            continue
+        grows, bases, fins = [], [], []
+        for i in f.calls():
+            sn = meth(i)
+            if sn in GROW_METHODS and i.args:
+                grows.append((i, addr_str(f, i.args[0], 0, 3)))
+            elif sn in START_METHODS and i.args:
+                bases.append((i, addr_str(f, i.args[0], 0, 3)))
+            elif sn in ("top_finish", "top_nullify") and i.args:
+                fins.append((i, addr_str(f, i.args[0], 0, 3)))      # the top object is finished: it does not move any more
+        if not grows or not bases:
+            continue
+        rep.cover(p, [f.name])
+        for (g, cont) in grows:
+            nsites += 1
+            for (b, bc) in bases:
+                if bc != cont or not path_exists(f, b, g, [x for (x, c_) in fins if c_ == cont]):
+                    continue
+                der = set([b.id])
+                work = [b.id]
+                while work:
+                    x = work.pop()
+                    for u in f.uses().get(x, []):
+                        if u.op in ("getelementptr", "bitcast") and u.id not in der:
+                            der.add(u.id)
+                            work.append(u.id)
+                for d in der:
+                    for u in f.uses().get(d, []):
+                        if u.op in ("getelementptr", "bitcast", "phi", "icmp", "ptrtoint", "sub"):
+                            continue
+                        is_use = (u.op == "load" and strip_casts(f, u.ops[0]).get("v") == d) or u.op == "store" or u.is_call()
+                        if not is_use:
+                            continue
+                        nptr += 1
+                        if path_exists(f, g, u, [b]):
+                            rep.violation("R14-c++", "%s/%s" % (f.name, cont), "a pointer into `%s' obtained before a call that may move the object is used afterwards: "
+                                          "dangling after the realloc / segment change" % cont, where=u.where(),
+                                          witness=["pointer obtained at " + b.where(), "object may move at " + g.where(), "stale use at " + u.where()])
+    if not any(x.rule == "R14-c++" for x in rep.findings):
+        rep.ok("R14-c++", "all-growth-sites", sample={"growing_calls": nsites, "pointer_uses_examined": nptr})
+    rep.floor("R14-c++", "calls of growing methods in the C++ branches of yaep.c", nsites, 20)
